@@ -133,3 +133,46 @@ SYMRT_HARNESS(C15_mip) {
   symrt::require(s1 == s2, "C15 MIP_Problem: the loaded problem answers differently");
   if (s1 == OPTIMIZED_MIP_PROBLEM) { Coefficient n1, d1, n2, d2; mip.optimal_value(n1, d1); x.optimal_value(n2, d2); symrt::check(term(n1) * term(d2) == term(n2) * term(d1), "C15 MIP_Problem: optimal value differs after load"); }
 }
+
+// powersets: disjuncts are boxes with symbolic integer bounds (so empty, nested and overlapping disjuncts - i.e.
+// non-omega-reduced states - are paths), optionally emptied / made redundant after insertion
+SYMRT_HARNESS(C15_pset) {
+  typedef Pointset_Powerset<C_Polyhedron> PS;
+  unsigned n = symrt::param("n", 1), k = symrt::param("k", 2); long Bb = symrt::param("Bb", 2);
+  PS ps(n, EMPTY);
+  auto reported = [&](const PS& p, const Point& x) { expr f = bval(false); for (PS::const_iterator i = p.begin(); i != p.end(); ++i) f = f || oracle::in_cs(i->pointset().constraints(), x); return f; };
+  for (unsigned i = 0; i < k; ++i) {
+    C_Polyhedron ph(n);
+    for (unsigned j = 0; j < n; ++j) { ph.add_constraint(Variable(j) >= symrt::input(S("lo", i, j), -Bb, Bb)); ph.add_constraint(Variable(j) <= symrt::input(S("hi", i, j), -Bb, Bb)); }
+    ps.add_disjunct(ph);
+    int st = symrt::choose(S("st", i), 4);
+    if (st == 1) ps.omega_reduce(); else if (st == 2) ps.add_constraint(Variable(0) >= symrt::input(S("cut", i), -Bb, Bb)); else if (st == 3) (void) ps.is_empty();
+  }
+  std::string t1 = dump(ps);
+  PS fresh(n, symrt::flag("fresh_universe") ? UNIVERSE : EMPTY);
+  bool ok = load(fresh, t1);
+  symrt::require(ok, "C15 Pointset_Powerset: ascii_load failed on the text produced by ascii_dump");
+  if (!ok) return;
+  symrt::require(fresh.OK(), "C15 Pointset_Powerset: the loaded object violates the class invariant");
+  { // saturation matrices that the status line marks as not up-to-date are dumped as they happen to be in memory:
+    // a difference confined to them is reported under its own label
+    auto split = [](const std::string& t, std::string& live, std::string& stale) {
+      std::istringstream is(t); std::string w; bool sc = true, sg = true;
+      while (is >> w) {
+        if (w == "+SC") sc = true; else if (w == "-SC") sc = false; else if (w == "+SG") sg = true; else if (w == "-SG") sg = false;
+        if ((w == "sat_c" && !sc) || (w == "sat_g" && !sg)) { std::string r, x, c; is >> r >> x >> c; long n = atol(r.c_str()) * atol(c.c_str()); stale += w + " " + r + "x" + c; for (long k = 0; k < n && (is >> w); ++k) stale += " " + w; stale += "\n"; live += " " + std::string(w == "sat_c" ? "sat_c" : "sat_g") + " (stale)"; continue; }
+        live += " " + w;
+      } };
+    std::string l1, s1, l2, s2, t2 = dump(fresh); split(t1, l1, s1); split(t2, l2, s2);
+    same_text(l1, l2, "C15 Pointset_Powerset: the loaded object dumps to a different text");
+    symrt::require(s1 == s2, "C15 Pointset_Powerset: the loaded object dumps to a different text (only inside a saturation matrix that the status line marks as not up-to-date)"); }
+  { Point p = oracle::fresh_point(n); symrt::check(reported(ps, p) == reported(fresh, p), "C15 Pointset_Powerset: the loaded object denotes a different set"); }
+  // same answers and same follow-up behaviour
+  symrt::require(ps.is_empty() == fresh.is_empty() && ps.is_bottom() == fresh.is_bottom(), "C15 Pointset_Powerset: the loaded object answers differently (is_empty / is_bottom)");
+  PS a(ps), b(fresh);
+  int fo = symrt::choose("follow", 3);
+  if (fo == 0) { a.omega_reduce(); b.omega_reduce(); } else if (fo == 1) { a.pairwise_reduce(); b.pairwise_reduce(); } else { mpz_class c = symrt::input("fk", -Bb, Bb); a.add_constraint(Variable(0) <= c); b.add_constraint(Variable(0) <= c); a.omega_reduce(); b.omega_reduce(); }
+  symrt::require(a.size() == b.size() && a.OK() && b.OK(), "C15 Pointset_Powerset: a follow-up operation gives a different number of disjuncts (or breaks OK()) on the loaded object");
+  symrt::require(a == b, "C15 Pointset_Powerset: a follow-up operation gives syntactically different powersets on the loaded object");
+  { Point p = oracle::fresh_point(n); symrt::check(reported(a, p) == reported(b, p), "C15 Pointset_Powerset: a follow-up operation gives different sets on the loaded object"); }
+}
